@@ -162,4 +162,189 @@ theorem go_name (c : Chars) (hc : c.OK) (la pre : Str) (n : Str) (s : PState) (r
     rw [go_plain c la pre n s rest hpl h1, h3]
     simp
 
+/-! ### steps inside an attribute section -/
+
+theorem step_plain_name (c : Chars) (la pre : Str) (s : PState) (x : Char) (rest : Str)
+    (hx : Plain c x) (h1 : s.st = .attrName) :
+    step c la pre s x rest = some ({ s with cum := s.cum ++ [x] }, 0) := by
+  obtain ⟨a1, a2, a3, a4, a5, a6, a7, a8⟩ := Plain.ne c x hx
+  simp [step, a1, a2, a3, a4, a5, a6, a7, a8, h1]
+
+theorem step_plain_val (c : Chars) (la pre : Str) (s : PState) (x : Char) (rest : Str)
+    (hx : Plain c x) (h1 : s.st = .attrVal) :
+    step c la pre s x rest = some ({ s with cumVal := s.cumVal ++ [x] }, 0) := by
+  obtain ⟨a1, a2, a3, a4, a5, a6, a7, a8⟩ := Plain.ne c x hx
+  simp [step, a1, a2, a3, a4, a5, a6, a7, a8, h1]
+
+theorem step_quote_name (c : Chars) (hc : c.values.Nodup) (la pre : Str) (s : PState) (w rest : Str)
+    (hw : c.quote ∉ w) (h1 : s.st = .attrName) (h3 : s.cum = []) :
+    step c la pre s c.quote (w ++ c.quote :: rest) = some ({ s with cum := w }, w.length + 1) := by
+  have a : c.quote ≠ c.openB := c.ne_of_nodup hc 5 0 (by omega) (by omega) (by omega)
+  have b : c.quote ≠ c.closeB := c.ne_of_nodup hc 5 1 (by omega) (by omega) (by omega)
+  have d : c.quote ≠ c.attrStart := c.ne_of_nodup hc 5 2 (by omega) (by omega) (by omega)
+  have e : c.quote ≠ c.attrEnd := c.ne_of_nodup hc 5 3 (by omega) (by omega) (by omega)
+  have f : c.quote ≠ c.keyValue := c.ne_of_nodup hc 5 4 (by omega) (by omega) (by omega)
+  have g : c.quote ≠ c.nodeSep := c.ne_of_nodup hc 5 7 (by omega) (by omega) (by omega)
+  simp [step, a, b, d, e, f, g, h1, h3, takeWhile_quote c.quote w rest hw]
+
+theorem step_quote_val (c : Chars) (hc : c.values.Nodup) (la pre : Str) (s : PState) (w rest : Str)
+    (hw : c.quote ∉ w) (h1 : s.st = .attrVal) (h3 : s.cumVal = []) :
+    step c la pre s c.quote (w ++ c.quote :: rest) = some ({ s with cumVal := w }, w.length + 1) := by
+  have a : c.quote ≠ c.openB := c.ne_of_nodup hc 5 0 (by omega) (by omega) (by omega)
+  have b : c.quote ≠ c.closeB := c.ne_of_nodup hc 5 1 (by omega) (by omega) (by omega)
+  have d : c.quote ≠ c.attrStart := c.ne_of_nodup hc 5 2 (by omega) (by omega) (by omega)
+  have e : c.quote ≠ c.attrEnd := c.ne_of_nodup hc 5 3 (by omega) (by omega) (by omega)
+  have f : c.quote ≠ c.keyValue := c.ne_of_nodup hc 5 4 (by omega) (by omega) (by omega)
+  have g : c.quote ≠ c.nodeSep := c.ne_of_nodup hc 5 7 (by omega) (by omega) (by omega)
+  simp [step, a, b, d, e, f, g, h1, h3, takeWhile_quote c.quote w rest hw]
+
+theorem step_keyValue (c : Chars) (hc : c.values.Nodup) (la pre : Str) (s : PState) (rest : Str)
+    (h1 : s.st = .attrName) (h2 : s.cur = true) (h3 : s.cum ≠ []) (h4 : s.cumVal = []) :
+    step c la pre s c.keyValue rest = some ({ s with st := .attrVal }, 0) := by
+  have a : c.keyValue ≠ c.openB := c.ne_of_nodup hc 4 0 (by omega) (by omega) (by omega)
+  have b : c.keyValue ≠ c.closeB := c.ne_of_nodup hc 4 1 (by omega) (by omega) (by omega)
+  have d : c.keyValue ≠ c.attrStart := c.ne_of_nodup hc 4 2 (by omega) (by omega) (by omega)
+  have e : c.keyValue ≠ c.attrEnd := c.ne_of_nodup hc 4 3 (by omega) (by omega) (by omega)
+  have g : c.keyValue ≠ c.nodeSep := c.ne_of_nodup hc 4 7 (by omega) (by omega) (by omega)
+  simp [step, a, b, d, e, g, h1, h2, h3, h4]
+
+theorem step_attrEnd (c : Chars) (hc : c.values.Nodup) (la pre : Str) (s s1 : PState) (rest : Str)
+    (h1 : s.st = .attrVal) (hs : setCurAttr { s with st := .str } = some s1) :
+    step c la pre s c.attrEnd rest = some (s1, 0) := by
+  have a : c.attrEnd ≠ c.openB := c.ne_of_nodup hc 3 0 (by omega) (by omega) (by omega)
+  have b : c.attrEnd ≠ c.closeB := c.ne_of_nodup hc 3 1 (by omega) (by omega) (by omega)
+  have d : c.attrEnd ≠ c.attrStart := c.ne_of_nodup hc 3 2 (by omega) (by omega) (by omega)
+  have g : c.attrEnd ≠ c.nodeSep := c.ne_of_nodup hc 3 7 (by omega) (by omega) (by omega)
+  simp [step, a, b, d, g, h1, hs]
+
+theorem step_sep_val (c : Chars) (hc : c.values.Nodup) (la pre : Str) (s s1 : PState) (rest : Str)
+    (h1 : s.st = .attrVal) (hs : setCurAttr { s with st := .attrName } = some s1) :
+    step c la pre s c.sep rest = some (s1, 0) := by
+  have a : c.sep ≠ c.openB := c.ne_of_nodup hc 6 0 (by omega) (by omega) (by omega)
+  have b : c.sep ≠ c.closeB := c.ne_of_nodup hc 6 1 (by omega) (by omega) (by omega)
+  have d : c.sep ≠ c.attrStart := c.ne_of_nodup hc 6 2 (by omega) (by omega) (by omega)
+  have e : c.sep ≠ c.attrEnd := c.ne_of_nodup hc 6 3 (by omega) (by omega) (by omega)
+  have f : c.sep ≠ c.keyValue := c.ne_of_nodup hc 6 4 (by omega) (by omega) (by omega)
+  have q : c.sep ≠ c.quote := c.ne_of_nodup hc 6 5 (by omega) (by omega) (by omega)
+  have g : c.sep ≠ c.nodeSep := c.ne_of_nodup hc 6 7 (by omega) (by omega) (by omega)
+  simp [step, a, b, d, e, f, q, g, h1, hs]
+
+theorem step_sep_str (c : Chars) (hc : c.values.Nodup) (la pre : Str) (s s1 : PState) (rest : Str)
+    (h1 : s.st = .str) (h2 : s.cur = false) (hn : createNew s = some s1) (h4 : s1.cumVal = []) :
+    step c la pre s c.sep rest = some ({ s1 with cum := [] }, 0) := by
+  have a : c.sep ≠ c.openB := c.ne_of_nodup hc 6 0 (by omega) (by omega) (by omega)
+  have b : c.sep ≠ c.closeB := c.ne_of_nodup hc 6 1 (by omega) (by omega) (by omega)
+  have d : c.sep ≠ c.attrStart := c.ne_of_nodup hc 6 2 (by omega) (by omega) (by omega)
+  have e : c.sep ≠ c.attrEnd := c.ne_of_nodup hc 6 3 (by omega) (by omega) (by omega)
+  have f : c.sep ≠ c.keyValue := c.ne_of_nodup hc 6 4 (by omega) (by omega) (by omega)
+  have q : c.sep ≠ c.quote := c.ne_of_nodup hc 6 5 (by omega) (by omega) (by omega)
+  have g : c.sep ≠ c.nodeSep := c.ne_of_nodup hc 6 7 (by omega) (by omega) (by omega)
+  simp [step, a, b, d, e, f, q, g, h1, h2, hn, h4]
+
+/-- `[`: the node is created (or completed), the prefix skipped -/
+theorem step_attrStart (c : Chars) (hc : c.values.Nodup) (la pre : Str) (s s2 : PState) (rest : Str)
+    (h1 : s.st = .str) (hn : create la { s with st := .attrName } = some s2) (h4 : s2.cumVal = []) :
+    step c la pre s c.attrStart (pre ++ rest) = some ({ s2 with cum := [] }, pre.length) := by
+  have a : c.attrStart ≠ c.openB := c.ne_of_nodup hc 2 0 (by omega) (by omega) (by omega)
+  have b : c.attrStart ≠ c.closeB := c.ne_of_nodup hc 2 1 (by omega) (by omega) (by omega)
+  have g : c.attrStart ≠ c.nodeSep := c.ne_of_nodup hc 2 7 (by omega) (by omega) (by omega)
+  have hsw : ∀ (p r : Str), startsWith (p ++ r) p = true := by
+    intro p
+    induction p with
+    | nil => intro r; cases r <;> rfl
+    | cons x xs ih => intro r; simp [startsWith, ih]
+  simp [step, a, b, g, h1, hn, h4, hsw]
+
+/-- `,` / `)` when the node already exists -/
+theorem step_close_cur (c : Chars) (hc : c.values.Nodup) (la pre : Str) (s s2 : PState) (rest : Str)
+    (h1 : s.st = .str) (h2 : s.cur = true) (hn : createExisting la s = some s2) (h4 : s2.cumVal = []) :
+    step c la pre s c.closeB rest = some ({ s2 with depth := s2.depth - 1, cur := false, cum := [] }, 0) := by
+  have a : c.closeB ≠ c.openB := c.ne_of_nodup hc 1 0 (by omega) (by omega) (by omega)
+  have b : c.closeB ≠ c.attrStart := c.ne_of_nodup hc 1 2 (by omega) (by omega) (by omega)
+  have d : c.closeB ≠ c.nodeSep := c.ne_of_nodup hc 1 7 (by omega) (by omega) (by omega)
+  simp [step, a, b, d, h1, create, h2, hn, h4]
+
+theorem step_nodeSep_cur (c : Chars) (hc : c.values.Nodup) (la pre : Str) (s s2 : PState) (rest : Str)
+    (h1 : s.st = .str) (h2 : s.cur = true) (hn : createExisting la s = some s2) (h4 : s2.cumVal = []) :
+    step c la pre s c.nodeSep rest = some ({ s2 with cur := false, cum := [] }, 0) := by
+  have a : c.nodeSep ≠ c.openB := c.ne_of_nodup hc 7 0 (by omega) (by omega) (by omega)
+  have b : c.nodeSep ≠ c.attrStart := c.ne_of_nodup hc 7 2 (by omega) (by omega) (by omega)
+  have d : c.nodeSep ≠ c.closeB := c.ne_of_nodup hc 7 1 (by omega) (by omega) (by omega)
+  simp [step, a, b, d, h1, create, h2, hn, h4]
+
+/-! ### reading plain / quoted text into the key or value buffer -/
+
+theorem go_plain_name (c : Chars) (la pre : Str) : ∀ (w : Str) (s : PState) (rest : Str),
+    (∀ x ∈ w, Plain c x) → s.st = .attrName →
+    go c la pre s (w ++ rest) = go c la pre { s with cum := s.cum ++ w } rest := by
+  intro w
+  induction w with
+  | nil => intro s rest _ _; simp
+  | cons x xs ih =>
+    intro s rest hw hs
+    rw [List.cons_append, go_step c la pre s x (xs ++ rest) _ 0 (step_plain_name c la pre s x _ (hw x (by simp)) hs)]
+    have := ih { s with cum := s.cum ++ [x] } rest (fun y hy => hw y (by simp [hy])) hs
+    rw [List.drop_zero, this]
+    simp
+
+theorem go_plain_val (c : Chars) (la pre : Str) : ∀ (w : Str) (s : PState) (rest : Str),
+    (∀ x ∈ w, Plain c x) → s.st = .attrVal →
+    go c la pre s (w ++ rest) = go c la pre { s with cumVal := s.cumVal ++ w } rest := by
+  intro w
+  induction w with
+  | nil => intro s rest _ _; simp
+  | cons x xs ih =>
+    intro s rest hw hs
+    rw [List.cons_append, go_step c la pre s x (xs ++ rest) _ 0 (step_plain_val c la pre s x _ (hw x (by simp)) hs)]
+    have := ih { s with cumVal := s.cumVal ++ [x] } rest (fun y hy => hw y (by simp [hy])) hs
+    rw [List.drop_zero, this]
+    simp
+
+theorem serialize_cases (c : Chars) (hc : c.OK) (n : Str) (hq : c.quote ∉ n) :
+    (serialize c n = c.quote :: n ++ [c.quote]) ∨ (serialize c n = n ∧ ∀ x ∈ n, Plain c x) := by
+  unfold serialize
+  by_cases hany : (n.any fun ch => c.values.contains ch) = true
+  · left
+    rw [if_pos hany]
+    have hmap : n.map (fun ch => if ch = c.quote then '"' else ch) = n := by
+      conv => rhs; rw [← List.map_id n]
+      apply List.map_congr_left
+      intro x hx
+      have : x ≠ c.quote := fun e => hq (e ▸ hx)
+      simp [this]
+    rw [hmap, hc.2.2.2.2.2.2.1]
+  · right
+    rw [if_neg hany]
+    refine ⟨rfl, ?_⟩
+    intro x hx hmem
+    apply hany
+    rw [List.any_eq_true]
+    exact ⟨x, hx, by simpa using hmem⟩
+
+/-- reading `_serialize(key)` in the attribute-name state -/
+theorem go_key (c : Chars) (hc : c.OK) (la pre : Str) (k : Str) (s : PState) (rest : Str)
+    (hq : c.quote ∉ k) (h1 : s.st = .attrName) (h3 : s.cum = []) :
+    go c la pre s (serialize c k ++ rest) = go c la pre { s with cum := k } rest := by
+  rcases serialize_cases c hc k hq with h | ⟨h, hpl⟩
+  · rw [h]
+    have e : c.quote :: k ++ [c.quote] ++ rest = c.quote :: (k ++ c.quote :: rest) := by simp
+    rw [e, go_step c la pre s c.quote _ _ _ (step_quote_name c hc.1 la pre s k rest hq h1 h3)]
+    congr 1
+    simp
+  · rw [h, go_plain_name c la pre k s rest hpl h1, h3]
+    simp
+
+/-- reading `_serialize(value)` in the attribute-value state -/
+theorem go_val (c : Chars) (hc : c.OK) (la pre : Str) (v : Str) (s : PState) (rest : Str)
+    (hq : c.quote ∉ v) (h1 : s.st = .attrVal) (h3 : s.cumVal = []) :
+    go c la pre s (serialize c v ++ rest) = go c la pre { s with cumVal := v } rest := by
+  rcases serialize_cases c hc v hq with h | ⟨h, hpl⟩
+  · rw [h]
+    have e : c.quote :: v ++ [c.quote] ++ rest = c.quote :: (v ++ c.quote :: rest) := by simp
+    rw [e, go_step c la pre s c.quote _ _ _ (step_quote_val c hc.1 la pre s v rest hq h1 h3)]
+    congr 1
+    simp
+  · rw [h, go_plain_val c la pre v s rest hpl h1, h3]
+    simp
+
 end Newick
